@@ -8,7 +8,7 @@ from .values import (Sym, Union, VObj, VInst, VList, VDict, VSet, VCell, VFunc, 
                      VGen, VSuper, VModel, SlotRef, NULL, UNDEF, Unsupported, merge, mk_union, alts_of, truth,
                      sym_bool, is_concrete)
 
-MISSING = object()
+from .values import MISSING  # noqa: E402
 
 
 def _vmraise(exc):
@@ -569,12 +569,35 @@ def _as_set_slots(vm, s, x):
     raise Unsupported(f"set operand {x!r}")
 
 
+def seq_eq(vm, s, a: VList, b: VList) -> B:
+    """equality of two guarded sequences (as the lists they denote)"""
+    na = sum(1 for p, _ in a.slots if p is not FALSE)
+    nb = sum(1 for p, _ in b.slots if p is not FALSE)
+    parts = []
+    for k in range(max(na, nb)):
+        ca = nth_present(a, k)
+        cb = nth_present(b, k)
+        ea = OR(*[c for c, _ in ca])
+        eb = OR(*[c for c, _ in cb])
+        parts.append(IFF(ea, eb))
+        for c1, j1 in ca:
+            for c2, j2 in cb:
+                both = AND(c1, c2)
+                if both is FALSE:
+                    continue
+                parts.append(OR(NOT(both), eq_values(vm, s, a.slots[j1][1], b.slots[j2][1])))
+    return AND(*parts)
+
+
 def binop(vm, s, opname, a, b):
     ta, tb = type(a), type(b)
     if opname in ("==", "!="):
         if ta is VSet and (tb is VSet or isinstance(b, (set, frozenset))) or (tb is VSet and isinstance(a, (set, frozenset))):
             sa, sb = _as_set_slots(vm, s, a), _as_set_slots(vm, s, b)
             e = AND(*[IFF(sa.get(k, FALSE), sb.get(k, FALSE)) for k in set(sa) | set(sb)])
+            return sym_bool(e if opname == "==" else NOT(e))
+        if ta is VList and tb is VList and not (a.is_plain() and b.is_plain()):
+            e = seq_eq(vm, s, a, b)
             return sym_bool(e if opname == "==" else NOT(e))
         if ta is VList and tb is VList:
             if a.is_plain() and b.is_plain():
